@@ -91,6 +91,8 @@ func cmdOne(args []string) int {
 				job.Redirects = map[string]string{}
 			}
 			job.Redirects[q[0]] = q[1]
+		case "@summary":
+			job.Summaries = append(job.Summaries, p[1])
 		case "@maporder":
 			job.MapOrder = p[1]
 			job.MapBudget = 1
@@ -242,6 +244,10 @@ func cmdRun(args []string) int {
 	t0 := time.Now()
 	known := loadKnown()
 	evPath := filepath.Join(verifRoot(), "evidence", id+".json")
+	if d := os.Getenv("VERIF_EVIDENCE_DIR"); d != "" {
+		// seeded-change runs against scratch worktrees must not overwrite the committed evidence
+		evPath = filepath.Join(d, id+".json")
+	}
 	os.MkdirAll(filepath.Dir(evPath), 0o755)
 
 	// group harnesses by package
@@ -520,6 +526,9 @@ func cmdRun(args []string) int {
 			b, _ := json.MarshalIndent(rf, "", " ")
 			sum := sha1.Sum(b)
 			dir := filepath.Join(verifRoot(), "replays", id)
+			if d := os.Getenv("VERIF_EVIDENCE_DIR"); d != "" {
+				dir = filepath.Join(d, "replays", id)
+			}
 			os.MkdirAll(dir, 0o755)
 			path := filepath.Join(dir, fmt.Sprintf("%s-%x.json", v.run.h.Name, sum[:5]))
 			os.WriteFile(path, b, 0o644)
